@@ -445,6 +445,12 @@ def main():
                     w = witness.gen_framing(pid, {'full': 'codec_dec/decode'})
                     thorough['framing_grid'] = {'frames': 37 * 4 * 3 * 3, 'mismatch': (w or {}).get('what')}
                     if w: undecided.append('framing grid disagrees with the real code although every obligation is discharged: %s' % w.get('what'))
+                    # the same pipelines through the REAL MemcacheTcpServer over loopback TCP, in several segmentations,
+                    # against the socket-less request path (catches what no contract expresses: a frame read but never
+                    # handed to the handler, responses held back, ...)
+                    w2 = witness.gen_sock(pid, {'full': 'server/read_frame'})
+                    thorough['socket_pipelines'] = {'pipelines': len(witness.sock_pipelines()), 'mismatch': (w2 or {}).get('what', None) and w2['what'][:300]}
+                    if w2: undecided.append('socket-level pipeline twin disagrees with the real server although every obligation is discharged: %s' % w2['what'][:300])
             except Exception as e:
                 thorough['framing_grid_error'] = repr(e)
         if undecided and rc == 0:
